@@ -177,6 +177,12 @@ def c02Clauses (i : CertInputs) (tbs : Bytes) : List String :=
     clause "C02:ski-present-in-ca" (match i.p.isCa with | .ca _ => !skis.isEmpty | _ => true) ++
     clause "C02:ski-value" (skis.all (fun e => e.value == wantSki) && skis.length ≤ 1)
 
+/-- basicConstraints asserting cA MUST be critical (RFC 5280 §4.2.1.9) -/
+def bcCriticalOk (e : Ext) : Bool :=
+  match e.value with
+  | .basicConstraints true _ => e.critical
+  | _ => true
+
 /-- C05 (certificate part): structural MUSTs of the profile -/
 def c05CertClauses (i : CertInputs) (tbs : Bytes) : List String :=
   match decodeTbsCert tbs with
@@ -190,10 +196,7 @@ def c05CertClauses (i : CertInputs) (tbs : Bytes) : List String :=
       (i.p.serial.isSome || (0 < c.serial && c.serial < 2 ^ 159)) ++
     clause "C05:san-critical-iff-subject-empty"
       ((find oidSan).all (fun e => e.critical == c.subject.isEmpty)) ++
-    clause "C05:basic-constraints-critical-in-ca"
-      ((find oidBasicConstraints).all (fun e => match e.value with
-        | .basicConstraints true _ => e.critical
-        | _ => true)) ++
+    clause "C05:basic-constraints-critical-in-ca" ((find oidBasicConstraints).all bcCriticalOk) ++
     clause "C05:name-constraints-critical" ((find oidNameConstraints).all (·.critical)) ++
     clause "C05:key-identifiers-noncritical"
       ((find oidAki ++ find oidSki).all (fun e => !e.critical)) ++
